@@ -53,6 +53,46 @@ theorem supported_orders :
     (∀ n ∈ [1, 2, 3, 4, 5, 6, 7, 8, 9, 10], n ∈ GAUSS_ORDERS) := by
   decide
 
+/-! ### accept / reject is part of the model -/
+
+/-- a table exists exactly for the listed orders (both directions, for EVERY natural number) -/
+theorem tri_keys (o : Nat) : o ∈ TRI_ORDERS ↔ tri o ≠ [] := by
+  constructor
+  · intro h
+    have hall : (TRI_ORDERS.all fun o => !(tri o).isEmpty) = true := by decide +kernel
+    have := List.all_eq_true.mp hall o h
+    intro he; rw [he] at this; simp at this
+  · intro h
+    unfold Gen.Quad.tri at h
+    split at h <;> first | decide | exact absurd rfl h
+
+theorem gauss_keys (n : Nat) : n ∈ GAUSS_ORDERS ↔ gauss n ≠ [] := by
+  constructor
+  · intro h
+    have hall : (GAUSS_ORDERS.all fun n => !(gauss n).isEmpty) = true := by decide +kernel
+    have := List.all_eq_true.mp hall n h
+    intro he; rw [he] at this; simp at this
+  · intro h
+    unfold Gen.Quad.gauss at h
+    split at h <;> first | decide | exact absurd rfl h
+
+/-- **the model accepts `(rule, order)` iff the code has a quadrature table for it** -/
+theorem supported_iff_table (rule order : Nat) :
+    supported rule order = true ↔
+      (rule = 1 ∧ tri order ≠ []) ∨ (rule = 0 ∧ gauss order ≠ []) := by
+  unfold supported
+  simp only [Bool.or_eq_true, Bool.and_eq_true, beq_iff_eq, List.contains_iff_mem, tri_keys, gauss_keys]
+
+/-- **every rule/order the property quantifies over is accepted**; orders next to them are not -/
+theorem supported_quantifier :
+    (∀ o ∈ [1, 4, 8, 10, 12], supported 1 o = true) ∧
+    (∀ n ∈ [1, 2, 3, 4, 5, 6, 7, 8, 9, 10], supported 0 n = true) := by
+  decide
+
+-- non-vacuity: the decision discriminates (no table for these), and no other rule number is accepted
+example : supported 0 0 = false ∧ supported 0 17 = false ∧ supported 1 0 = false ∧ supported 2 4 = false := by
+  decide
+
 /-! lifting the `Bool` loops to quantified statements -/
 
 theorem triExact_of_B {D : Nat} {t : List TriRow} {deg T : Nat} (h : triExactB D t deg T = true) :
